@@ -114,6 +114,9 @@ def env_for(flavour='plain', pure=False, extra=None):
             env['LD_PRELOAD'] = ASAN_RT
             env['ASAN_OPTIONS'] = 'detect_leaks=0:abort_on_error=1:allocator_may_return_null=1'
             env['UBSAN_OPTIONS'] = 'print_stacktrace=1:halt_on_error=1'
+            # every Python object through malloc, so that the sanitizer sees the nodes and the stored keys and values too
+            # (pymalloc's arenas would hide a use of a freed node)
+            env['PYTHONMALLOC'] = 'malloc'
     if extra:
         env.update(extra)
     return env
